@@ -26,6 +26,7 @@ var c06Terms = []string{
 	"[-]", "[-|-]", "'|'(a, b)", "f('|')", "(a | b)", "'[]'", "'{}'", "'{}'(a)", "{a, b}", "[]", "'[]'(a)", "'.'(a)", "f(',')", "','(a)",
 	"','(a, b, c)", "=(a, \\+)", "=(\\+, a)", "f(a, -)", "=(-, -)", "[a, b|c]", "\"abc\"", "f(\"\")", "'hello world'(a)", "f('\\n')", "f('')",
 	"''", "f(a, 'B', _c)", "'/*'", "f('/*')", "//", "f(;)", "(a ; b)", "';'(a)", "f(!)", "!", "f('$VAR'(foo))", "foo(a, b) = bar(c)",
+	"f(X, X)", "foo(X, X)", "[X, Y, X|Y]", "bar(X) = baz(X)",
 	"1 - +(a, b, c)", "a = -(1, 2, 3)", "-(+(a, b, c))", "foo(1, bar(a, b, c))", "bar(foo(a, b, c))", "f(+(a, b, c))", "[-(1, 2, 3)]", "\\+ (+(a, b, c))",
 	"baz(foo(a, b, c))", "foo(foo(a, b, c), bar(a, b))", "+(a, b, c) - 1", "-(-)", "\\+ (-)", "1 - (-)", "bar(bar)", "bar(baz)", "baz(baz)",
 	"1 = foo(2, 3)", "- (1) - 1", "1 - (-(1))", "a- - -b", "f(a- -1)", "1.0 - -1.0", "-(1.0)", "foo(-1.0, 2.5)", "- a ^ 2", "(- a) ^ 2", "-(1) ^ 2", "-1 ^ 2", "- (1 ^ 2)",
